@@ -20,7 +20,9 @@ for d in sorted(glob.glob(os.path.join(V, "seeded", "*-*"))):
                 notes = re.sub(r"[`*|]", "", line)[:170]
                 break
     conf = m.get("confirmation", {})
-    res = m.get("check_results", {})
+    res = dict(m.get("preliminary_results", {}))
+    res.update(m.get("check_results", {}))  # the run with the patch applied to /repo itself wins
+    via = "/repo" if m.get("check_results") else "worktree"
     caught = [k for k, v in res.items() if v.get("exit") == 1 and v.get("violations")]
     missed = [k for k, v in res.items() if v.get("exit") == 0]
     how = ""
@@ -28,7 +30,7 @@ for d in sorted(glob.glob(os.path.join(V, "seeded", "*-*"))):
         det = res[k].get("detail") or [""]
         how = re.sub(r"[|]", "/", det[0].strip())[:110]
         break
-    rows.append((name, "yes" if conf.get("confirmed") else "NO", ", ".join(caught) or "-", ", ".join(missed) or "-", m.get("needs", notes), how, m.get("remark", "")))
+    rows.append((name, "yes" if conf.get("confirmed") else "NO", (", ".join(caught) + " (" + via + ")") if caught else "-", ", ".join(missed) or "-", m.get("needs", notes), how, m.get("remark", "")))
 print("| change | confirmed (suite passes, demo fails) | caught by | passed (missed) | what it needs to manifest | first report | remark |")
 print("|---|---|---|---|---|---|---|")
 for r in rows:
